@@ -28,7 +28,9 @@ var (
 		// further buckets of charts listed above, as entries of their own (with rates of their own)
 		"chart:{b4,b5}", "gopls/client:{emacs,other}", "c:{bbb}",
 		// bucket names that contain the separator themselves
-		"target:{linux:amd64,linux:arm64,other}", "sep:a:b"}
+		"target:{linux:amd64,linux:arm64,other}", "sep:a:b",
+		// characters that mark-up and quoting layers treat specially (a name is looked up as it is, not as it is displayed)
+		"gopls/latency:{<50ms,>=1s}", "fmt&imports", "q'uote\"d"}
 	StackPool = []string{"crash/crash", "gopls/bug", "stk", "a/stk"}
 	RatePool  = []float64{0, 0.1, 0.5, 0.9, 1}
 )
